@@ -230,6 +230,56 @@ func runC14(r *core.Run) {
 			return core.Outcome{Class: fmt.Sprint("len%3=", len(seq)%3), Nontrivial: true, Evals: 4}
 		})
 
+	core.Clause(r, "frames-result-retention", core.Opts{Rule: "call histories: TranslateReadingFrames(x) then TranslateReadingFrames(y) (and Translate(nil, z)) for all ordered pairs over a pool of 9 sequences; the three slices of the first result must be unchanged afterwards and must not alias each other; non-trivial = all"},
+		func(emit func(c14Pair) bool) {
+			pool := []string{"", "A", "ATG", "ATGAAATAG", "atgccc", "TTTTTTTTTTTT", "ACGTACGTACGTACGTACGTA", "GGGCCCAAATTTGGGCCCAAATTT", "CATCATCATCAT"}
+			for _, a := range pool {
+				for _, b := range pool {
+					emit(c14Pair{core.S(a), core.S(b), 0})
+				}
+			}
+		},
+		func(c c14Pair) core.Outcome {
+			var first, second [3][]byte
+			if p := catch(func() { first = sequtil.TranslateReadingFrames(c.A.B()) }); p != "" {
+				return core.Failf("panic: %s", p)
+			}
+			var snap [3]string
+			for i := range first {
+				snap[i] = string(first[i])
+			}
+			if p := catch(func() {
+				second = sequtil.TranslateReadingFrames(c.B.B())
+				sequtil.Translate(nil, []byte("ATGAAATAGATG"))
+			}); p != "" {
+				return core.Failf("panic: %s", p)
+			}
+			for i := range first {
+				if string(first[i]) != snap[i] {
+					return core.Failf("frame %d of TranslateReadingFrames(%q) was %q and became %q after a later call on %q", i, c.A, snap[i], first[i], c.B)
+				}
+			}
+			for i := range first {
+				for j := range first {
+					if i != j && len(first[i]) > 0 && len(first[j]) > 0 && &first[i][0] == &first[j][0] {
+						return core.Failf("frames %d and %d of one result share memory", i, j)
+					}
+				}
+				for k := range first[i] {
+					first[i][k] = '#'
+				}
+			}
+			for i := range second {
+				sub := c.B.B()[min(i, len(c.B)):]
+				sub = sub[:len(sub)/3*3]
+				want, _ := ref.Translate(sub)
+				if !bytes.Equal(second[i], want) {
+					return core.Failf("writing into the result of an earlier call changed the result of TranslateReadingFrames(%q)", c.B)
+				}
+			}
+			return core.Outcome{Class: "ok", Nontrivial: true, Evals: 3}
+		})
+
 	core.Clause(r, "amino-name", core.Opts{Rule: "all 256 byte values: accepted iff the upper-cased byte is listed in AminoAcids, code and name non-empty, case-insensitive; else panic"},
 		func(emit func(c14Amino) bool) {
 			for b := 0; b < 256; b++ {
